@@ -109,7 +109,7 @@ pub fn run_child(spec: &Spec) -> ChildRun {
     let mut cmd = Command::new(spec.exe);
     cmd.args(&spec.args)
         .env_clear()
-        .env("TZ", "UTC")
+        .env("TZ", spec.child.tz.as_deref().unwrap_or("UTC"))
         .env("TERM", "xterm-256color")
         .env("ADSB_VERIF_SCENARIO", &sc_path)
         .env("ADSB_VERIF_LOG", &log_path)
